@@ -39,11 +39,11 @@ ASSUMPTIONS = [
     "Excl: `set`-style dump lines of associative arrays (bash's own `set` output for them cannot be sourced back)",
     "Excl: whitelist mode with an empty pattern list (main_run ignores the whitelist flag then; the statement does not say)",
     "Excl: definitions repeated within one dump, dumps not produced by bash (hand-written shell), patterns other than escaped literal names and NAME-PREFIX.* regexes",
-    "only the listed value/body alphabet is covered; dumps hold at most 2 (quick) / 3 (thorough) definitions",
+    "only the listed value/body alphabet is covered; dumps hold at most 2 (quick) / 3 (thorough) definitions; quick pairs need one member from the core sub-alphabet",
 ]
 BOUNDS = {
-    "quick": "all single definitions and all ordered pairs of the full item alphabet (set-style vars, declare-style vars, functions) x the filter family",
-    "thorough": "quick + all ordered triples over the core sub-alphabet x the filter family",
+    "quick": "all single definitions of the full item alphabet (set-style vars, declare-style vars, functions) and all ordered pairs with at least one member in the core sub-alphabet, x the filter family",
+    "thorough": "all single definitions, all ordered pairs of the full item alphabet and all ordered triples over the core sub-alphabet, x the filter family",
 }
 
 # ----------------------------------------------------------------------------------------------- alphabet
@@ -361,20 +361,14 @@ class Shell:
 
     def _eval_once(self, text, vn, fn):
         self.n += 1
-        path = os.path.join(self.dir, f"t{self.n}")
+        path = os.path.join(self.dir, "t")  # fixed names: every evaluation truncates and rewrites them
         with open(path, "w", encoding="utf-8") as f:
             f.write(text)
         ok = self.srv.cmd(
             f"source {_q(path)} >{_q(path + '.out')} 2>{_q(path + '.err')} </dev/null; __rc=$?; __report {_q(path + '.state')} {_q(vn)} {_q(fn)}"
         )
         self.srv.evals += 1
-        st = _parse_state(path) if ok else {"broken": True}
-        for suf in ("", ".out", ".err", ".state"):
-            try:
-                os.unlink(path + suf)
-            except FileNotFoundError:
-                pass
-        return st
+        return _parse_state(path) if ok else {"broken": True}
 
     def _undo(self, st):
         extra_v = [n for n in st["ALLV"] if n not in self.baseline["ALLV"]]
@@ -692,7 +686,12 @@ def work(task):
         if kind == "pairs":
             its = items(tier)
             first = its[task[2]]
-            dumps = [[first]] + [[first, o] for o in its]
+            if tier == "quick":
+                core = core_items()
+                others = its if first in core else [o for o in its if o in core]
+            else:
+                others = its
+            dumps = [[first]] + [[first, o] for o in others]
         else:
             core = core_items()
             a, b = core[task[2]], core[task[3]]
